@@ -178,4 +178,20 @@ SigBadAt(j) ==
         LET m == j - 297 - 2 * Len(BadScalars)
             b == BoundaryOk[1 + (m \div 2)]
         IN  KItem("sig.parse", "scalars_ok", [text |-> Str(IF m % 2 = 0 THEN SigWith(b, Good.s, 27) ELSE SigWith(Good.r, b, 28))])
+\* EVERY position of a printed signature (with and without the 0x prefix) replaced by each character of an alphabet
+\* of characters that some number or text parser is lenient about: sign characters, digit separators, blanks,
+\* neighbours of the hex ranges in ASCII, NUL, non-ASCII letters and non-ASCII decimal digits
+MutChars == <<<<43>>, <<45>>, <<95>>, <<32>>, <<103>>, <<239, 188, 145>>,                      \* + - _ space g FULLWIDTH-1
+              <<46>>, <<120>>, <<58>>, <<47>>, <<64>>, <<96>>, <<71>>, <<0>>, <<195, 169>>, <<217, 161>>, <<9>>, <<10>>>>
+NMutChars == IF Thorough THEN Len(MutChars) ELSE 6
+NSigMut == (132 + 130) * NMutChars
+SigMutAt(j) ==
+  LET c    == 1 + ((j - 1) % NMutChars)
+      q    == (j - 1) \div NMutChars                     \* 0..261
+      sig  == Sign(SignKeys[1 + (c % 4)], Prng(K("pm", <<c>>), 32))
+      full == PrintSig([r |-> sig.r, s |-> sig.s, par |-> sig.par])
+      text == IF q < 132 THEN full ELSE SubSeq(full, 3, 132)
+      pos  == IF q < 132 THEN q + 1 ELSE q - 131
+  IN  KItem("sig.parse", "mutate_every_position",
+            [text |-> Utf8ToStr(SubSeq(text, 1, pos - 1) \o MutChars[c] \o SubSeq(text, pos + 1, Len(text)))])
 =============================================================================
